@@ -258,6 +258,33 @@ impl NodeMon for C02 {
             rep.seen(hash_bytes(&pack(n.p, n.p.ep)));
         }
         let default_board = Board::default();
+        // look-alikes of the source: same placement and side, other castling rights / no e.p. state, and the
+        // position after passing the turn - an implementation that "recognises" its output as a copy of the
+        // source and skips part of the copy would inherit the wrong component from them
+        let mut lookalikes: Vec<(&'static str, Board)> = vec![];
+        {
+            let orig: BoardBuilder = b.into();
+            for (c, name) in [(Color::White, "lookalike-white-rights"), (Color::Black, "lookalike-black-rights")].iter() {
+                let cur = rights_bits(orig.get_castle_rights(*c));
+                if cur != 0 {
+                    let mut bb = orig;
+                    bb.castle_rights(*c, lib_rights(cur & (cur - 1)));
+                    if let Ok(t) = Board::try_from(&bb) {
+                        lookalikes.push((name, t));
+                    }
+                }
+            }
+            if b.en_passant().is_some() {
+                let mut bb = orig;
+                bb.en_passant(None);
+                if let Ok(t) = Board::try_from(&bb) {
+                    lookalikes.push(("lookalike-no-ep", t));
+                }
+            }
+            if let Some(t) = b.null_move() {
+                lookalikes.push(("lookalike-other-side", t));
+            }
+        }
         let limit = if self.variant == Variant::Miri { 6 } else { usize::MAX };
         let mut order: Vec<RMove> = n.legal.to_vec();
         if order.len() > limit {
@@ -329,6 +356,9 @@ impl NodeMon for C02 {
                 outs.push(("dirty", d));
             }
             outs.push(("self", *b));
+            for (name, t) in lookalikes.iter() {
+                outs.push((name, *t));
+            }
             for (what, mut out) in outs {
                 rep.count("op_make_move");
                 b.make_move(lm, &mut out);
